@@ -534,6 +534,11 @@ fn directed(rec: &mut Recorder, seed: u64, budget: &mut TraceBudget) {
         let saved = budget.passes;
         budget.passes = usize::MAX;
         run_ops(rec, &format!("d{}", i), &wide, &ops, 12, &mut rng, budget);
+        // 4. known finding D-28: removed, written again under the same name, removed again, then the
+        //    first verifier passes (one traced: crash images inside it), the store reopened
+        let mut ops = d28_history(*mr);
+        ops.extend(vec![if i == 0 { XOp::TracedVerify } else { XOp::S(Op::Verify) }, XOp::S(Op::Verify), re()]);
+        run_ops(rec, &format!("r{}", i), &wide, &ops, 12, &mut rng, budget);
         budget.passes = saved;
     }
 }
@@ -687,7 +692,8 @@ impl AbsDir {
     pub fn request(&self) -> String {
         let frags = if self.frags.is_empty() { "-".to_string() } else { self.frags.iter().map(|(n, es)| format!("{}:{}", n, render_edits(es))).collect::<Vec<_>>().join("|") };
         format!(
-            "sst={} trash={} vM={} vO={} vstrs={} frags={} live={}",
+            "{}sst={} trash={} vM={} vO={} vstrs={} frags={} live={}",
+            if plan_is_old() { "plan=old " } else { "" },
             sorted_plus(self.sst.iter()),
             sorted_plus(self.trash.iter()),
             self.vm.map(|n| n.to_string()).unwrap_or_else(|| "-".into()),
@@ -821,6 +827,122 @@ fn protocol_complaints(pre: &AbsDir, post: &AbsDir) -> Vec<String> {
         }
     }
     bad
+}
+
+/// Known finding D-28 read off two directory states: a `<digest>.sst` left trash/ although a
+/// fragment the verifier has not processed yet (numbered above the `M` in verify/, the newest one
+/// included) or MANIFEST removes that file again — files are named after their contents, the one
+/// copy in trash/ is the one the checks of those fragments read.
+fn d28_complaints(pre: &AbsDir, post: &AbsDir) -> Vec<String> {
+    let upto = post.vm.unwrap_or(0);
+    let mut later: BTreeMap<String, String> = BTreeMap::new();
+    let mut note = |es: &Vec<AEdit>, wher: String| {
+        for e in es {
+            for r in &e.rm {
+                if !e.add.contains(r) {
+                    later.entry(r.clone()).or_insert_with(|| wher.clone());
+                }
+            }
+        }
+    };
+    for (n, es) in &pre.frags {
+        if *n > upto {
+            note(es, format!("MANIFEST.{}", n));
+        }
+    }
+    note(&pre.live, "MANIFEST".to_string());
+    let post_trash: BTreeSet<&String> = post.trash.iter().collect();
+    let mut bad = vec![];
+    for x in &pre.trash {
+        if post_trash.contains(x) {
+            continue;
+        }
+        if let Some(d) = x.strip_suffix(".sst") {
+            if let Some(w) = later.get(d) {
+                bad.push(format!("trash/{} was unlinked with M={:?} in verify/, and {} (not processed yet) removes that file again: its check reads the copy", x, post.vm, w));
+            }
+        }
+    }
+    bad
+}
+
+/// the verdict on the verifier's protocol between two directory states
+fn protocol_verdict(tag: &str, pre: &AbsDir, post: &AbsDir, extra: Vec<String>, taint: &Option<String>) -> Verdict {
+    let d28 = d28_complaints(pre, post);
+    let mut bad = protocol_complaints(pre, post);
+    bad.extend(extra);
+    if !d28.is_empty() {
+        Verdict::Fail { class: fail_class(taint, D28), detail: format!("{} {}", tag, d28.into_iter().chain(bad).collect::<Vec<_>>().join("; ")) }
+    } else if !bad.is_empty() {
+        Verdict::Fail { class: fail_class(taint, "verifier-removed-unlogged-or-needed-file"), detail: format!("{} {}", tag, bad.join("; ")) }
+    } else {
+        Verdict::Ok
+    }
+}
+
+fn d28_cfgs(mr: u64) -> (Cfg, Cfg, Cfg) {
+    let wide = Cfg { memtable_bytes: 1 << 20, target_file: 1 << 22, min_file: 64, target_block: 256, l0_mandatory_files: 1, l0_stall_files: 12, max_compaction_files: 16, gc_versions: 3, mani_ratio: mr };
+    let narrow = Cfg { target_file: 128, min_file: 64, ..wide.clone() };
+    let gc1 = Cfg { gc_versions: 1, ..wide.clone() };
+    (wide, narrow, gc1)
+}
+
+/// (D-28) no verifier pass until a file has been removed, re-created under the same name and removed
+/// again, each in a fragment of its own (the reopens roll the manifest over): the merge under the
+/// large target file removes the single-version files, the merge under the small one writes them
+/// again, the garbage collection under versions = 1 removes them again; one copy of such a file is
+/// in trash/ when the verifier comes to the first removal
+fn d28_history(mr: u64) -> Vec<XOp> {
+    let (_wide, narrow, gc1) = d28_cfgs(mr);
+    let big = |tag: u8, n: usize| -> Vec<u8> { std::iter::repeat(tag).take(n).collect() };
+    let put = |k: &[u8], v: Vec<u8>| XOp::S(Op::Put(k.to_vec(), v));
+    let co = || XOp::S(Op::Compact(1));
+    let mut ops = vec![];
+    for v in 0..5u8 {
+        ops.extend(vec![put(b"a", big(b'A' + v, 150)), XOp::S(Op::Flush)]);
+        ops.extend((0..18).map(|_| co()));
+    }
+    ops.push(XOp::ReopenCfg(narrow));
+    for v in 0..2u8 {
+        ops.extend(vec![put(b"a", big(b'a' + v, 150)), XOp::S(Op::Flush)]);
+        ops.extend((0..120).map(|_| co()));
+    }
+    ops.extend(vec![XOp::ReopenCfg(gc1), XOp::S(Op::Del(b"a".to_vec())), XOp::S(Op::Flush)]);
+    ops.extend((0..130).map(|_| co()));
+    ops.extend(vec![XOp::S(Op::Reopen), XOp::S(Op::Reopen)]);
+    ops
+}
+
+/// Which plan does the code under test follow?  Decided on D-28's directed history (as C11 does
+/// for its as-is models): the verifier that stops with an error on it is the one from before the
+/// repair, and the model is asked for that plan (`plan=old`).
+fn plan_is_old() -> bool {
+    static OLD: std::sync::OnceLock<bool> = std::sync::OnceLock::new();
+    *OLD.get_or_init(|| {
+        let (wide, _, _) = d28_cfgs(2);
+        let root = scratch_dir("c08.detect");
+        let mut sim = match Sim::open(&root, &wide) {
+            Ok(s) => s,
+            Err(_) => return false,
+        };
+        for x in d28_history(2) {
+            let op = match x {
+                XOp::S(o) => o,
+                XOp::ReopenCfg(c) => {
+                    sim.cfg = c;
+                    Op::Reopen
+                }
+                _ => continue,
+            };
+            if sim.apply(&op).is_err() {
+                break;
+            }
+        }
+        sim.verify_pass();
+        let old = sim.last_verify.starts_with("error") && sim.verifier_reject_class() == D28;
+        sim.close();
+        old
+    })
 }
 
 fn parse_cfg(s: &str) -> Cfg {
@@ -1030,12 +1152,8 @@ fn emit_pass(rec: &mut Recorder, tag: &str, before: &AbsDir, after: &AbsDir, las
         return;
     }
     let st = status_token(last_verify);
-    let bad = protocol_complaints(before, after);
-    let mut bad2 = bad.clone();
-    if st == "panic" {
-        bad2.push(format!("verifier panicked: {}", last_verify));
-    }
-    let v = if bad2.is_empty() { Verdict::Ok } else { Verdict::Fail { class: fail_class(taint, "verifier-removed-unlogged-or-needed-file"), detail: format!("{} {}", tag, bad2.join("; ")) } };
+    let extra = if st == "panic" { vec![format!("verifier panicked: {}", last_verify)] } else { vec![] };
+    let v = protocol_verdict(tag, before, after, extra, taint);
     rec.count(&format!("vfy.pass.{}", st.split(':').next().unwrap_or("")));
     let req = format!("vfy pass {}", before.request());
     let nontrivial = if after.frags.len() < before.frags.len() || st.starts_with("backoff") || !before.vstrs.is_empty() { Some(fnv(req.as_bytes())) } else { None };
@@ -1233,8 +1351,7 @@ fn traced_pass(rec: &mut Recorder, tag: &str, root: &str, cfg: &Cfg, keys: &[Vec
                 states_a.push(di.state());
             }
             // the crash state itself obeys the protocol (log before unlink)
-            let bad = if di.unreadable { vec!["verify/MANIFEST or a fragment unreadable in the image".to_string()] } else { protocol_complaints(&d0, &di) };
-            let v = if bad.is_empty() { Verdict::Ok } else { Verdict::Fail { class: fail_class(taint, "verifier-removed-unlogged-or-needed-file"), detail: format!("{} {}", itag, bad.join("; ")) } };
+            let v = if di.unreadable { Verdict::Fail { class: fail_class(taint, "verifier-removed-unlogged-or-needed-file"), detail: format!("{} verify/MANIFEST or a fragment unreadable in the image", itag) } } else { protocol_verdict(&itag, &d0, &di, vec![], taint) };
             rec.count(if model_b { "traced.images.model_b" } else { "traced.images.model_a" });
             rec.case(&format!("# {} image", itag), "#", tainted(v, taint), Some(fnv(format!("{}:{}:{}", tag, model_b, h).as_bytes())));
             // restart: the real verifier on the image against the model's pass from that state
